@@ -154,6 +154,15 @@ impl Serialize for AnySer<'_> {
                 let fo = chrono::FixedOffset::east_opt(a[2].as_i64().unwrap_or(0) as i32).ok_or_else(|| bad("offset"))?;
                 cel_interpreter::Timestamp(utc.with_timezone(&fo)).serialize(s)
             }
+            "hr" => {
+                // a type whose encoding depends on Serializer::is_human_readable (std::net::IpAddr, uuid, ...)
+                let a = v.as_array().ok_or_else(|| bad("hr"))?;
+                if s.is_human_readable() {
+                    AnySer(&a[0]).serialize(s)
+                } else {
+                    AnySer(&a[1]).serialize(s)
+                }
+            }
             "json" => {
                 // an arbitrary serde_json document, serialised by serde_json's own impl
                 v.serialize(s)
